@@ -189,6 +189,43 @@ def gen_round2(ctx, thorough):
     return out
 
 
+def open_content_model(d):
+    """predicate of known finding C18-DTD-CONTENTSPEC-EOE-LEAK: some entity text (a PE literal of the document, an external entity /
+    DTD, or a piece of the internal subset between PE references) contains an <!ELEMENT declaration whose content model is not
+    closed inside that same text, so the entity can end (or an error can be raised from a nested reader) while
+    DTDScanner::scanChildren holds a partially built ContentSpecNode tree"""
+    import re
+    texts = [v.decode("latin-1") for v in d.get("ext", {}).values()]
+    doc = d["doc"].decode("latin-1")
+    texts += re.findall(r'<!ENTITY\s+%\s+\S+\s+"([^"]*)"', doc) + re.findall(r"<!ENTITY\s+%\s+\S+\s+'([^']*)'", doc)
+    m = re.search(r"<!DOCTYPE[^\[>]*\[(.*)\]\s*>", doc, re.S)
+    if m:
+        texts.append(re.sub(r'"[^"]*"|\'[^\']*\'', "Q", m.group(1)))      # the internal subset without its literals
+    elif "<!DOCTYPE" in doc and "[" in doc:
+        texts.append(re.sub(r'"[^"]*"|\'[^\']*\'', "Q", doc[doc.index("["):]))
+    for t in texts:
+        t = t.replace("&#37;", "%").replace("&#34;", '"')
+        for mm in re.finditer(r"<!ELEMENT\s+\S+\s*", t):
+            rest = t[mm.end():]
+            if not rest.startswith("(") and not rest.startswith("%"):
+                continue
+            depth = 0
+            closed = False
+            for ch in rest:
+                if ch == "(":
+                    depth += 1
+                elif ch == ")":
+                    depth -= 1
+                    if depth <= 0:
+                        closed = True
+                        break
+                elif ch in "<>[]" or (ch == "%" and depth > 0):
+                    break                       # another construct (or a PE reference inside the group) before the group is closed
+            if not closed:
+                return True
+    return False
+
+
 def gen_round3(ctx, thorough):
     """(a) error recovery of the reader stack in DTDs x exitOnFirstFatalError x DTD-reading scanners x APIs, (b) DOM heap growth
     paths x document lifetimes, (c) grammar ownership cross product.  returns list of (case-id, kind, line)"""
@@ -202,7 +239,11 @@ def gen_round3(ctx, thorough):
         out.append((cid, kind, line))
     # (a)
     n = 0
+    skipped = 0
     for i, d in enumerate(G.pe_recovery_docs(rng, 400 if thorough else 40)):
+        if ctx.find_known("C18-DTD-CONTENTSPEC-EOE-LEAK") and open_content_model(d):
+            skipped += 1          # replayed by the literal witness of the known finding instead
+            continue
         for xff in (1, 0):
             for scn in ("IG", "DG"):
                 for api in (APIS if thorough else [APIS[n % 4]]):
@@ -231,6 +272,10 @@ def gen_round3(ctx, thorough):
                     kv = dict(c["kv"])
                     kv.update(api=api, scn=scn, mode=mode, val=1 if n % 3 else 2, exc=n % 4, thr=1, prog=1 if thorough else 0,
                               kmax=0 if thorough or not c["kv"]["sch"] else 8)
+                    # class of known finding C18-DG-GRAMMAR-DOUBLE-OWNED (see its identified_by): no handler-exception endings there
+                    if (ctx.find_known("C18-DG-GRAMMAR-DOUBLE-OWNED") and scn == "DG" and kv["cache"] == 1 and not kv["lock"]
+                            and b"SYSTEM" in c["doc"] and mode == "reuse"):
+                        kv["thr"] = 0
                     add("o%d%s-%s-%s-%s" % (n, api, c["tag"], scn, mode), "gramown/" + api, c, kv)
                     n += 1
     return out
@@ -586,6 +631,29 @@ def witnesses(ctx, xh, xm, dflt):
             ctx.violation("C18-DTD-CONTENTSPEC-LEAK", {"what": txt, "verdict": leaks[0], "request": lines})
     else:
         report_bad(ctx, bad, lines, "discipline violated in the content-spec witness")
+    # C18-DTD-CONTENTSPEC-EOE-LEAK: an entity ends (EndOfEntityException) while scanChildren holds a partially built content model
+    edoc = (b'<?xml version="1.0"?><!DOCTYPE r [<!ENTITY % inner "<!ELEMENT r (a,"><!ENTITY % mid "<!ELEMENT m EMPTY>&#37;inner;">'
+            b'<!ENTITY % outer SYSTEM "outer.ent">%outer;]><r/>')
+    lines = ["init w user=1", "case wEOE api=sax2 exc=0 mode=fresh ns=1 pool=0 sch=0 scn=IG val=0 thr=0 prog=0 doc=%s ext=outer.ent:%s,o2.ent:%s"
+             % (edoc.hex(), b"<!ENTITY % o2 SYSTEM 'o2.ent'>%o2;<!ELEMENT w EMPTY>".hex(), b"<!ELEMENT q EMPTY>%mid;".hex()), "term w"]
+    rc1, rc2, o, err = run_pipeline(xh, xm, lines, "wEOE")
+    ctx.count()
+    st = {}
+    verdicts, bad = judge(ctx, o, lines, "wEOE", st)
+    leaks = [ln for lab, ln in bad if ln.split()[2] == "outstanding" and lab.startswith("wEOE.")]
+    if rc1 != 0:
+        ctx.violation("harness-crash", {"what": "EOE content-spec witness crashed", "stderr": err[-1000:], "request": lines})
+    elif leaks and len(leaks) == len(bad):
+        txt = ("DTDScanner::scanChildren: a parameter entity that ends inside an open content-model group raises EndOfEntityException "
+               "(ReaderMgr::popReader) through scanChildren, which holds its partially built ContentSpecNode tree in raw pointers: "
+               "the tree is never freed, also when the parse simply ends with the fatal error (`%s` after the parser was destroyed)"
+               % " ".join(leaks[0].split()[1:5]))
+        if ctx.find_known("C18-DTD-CONTENTSPEC-EOE-LEAK"):
+            ctx.known_finding("C18-DTD-CONTENTSPEC-EOE-LEAK", txt)
+        else:
+            ctx.violation("C18-DTD-CONTENTSPEC-EOE-LEAK", {"what": txt, "verdict": leaks[0], "request": lines})
+    else:
+        report_bad(ctx, bad, lines, "discipline violated in the EOE content-spec witness")
     # C18-XPATH-EXPR-MANAGER: DOMXPathExpressionImpl copies an expression that does not start with '/' with the GLOBAL manager
     # and releases it to the document's manager
     xdoc = b'<r><a x="1">t</a><a>u</a></r>'
@@ -640,7 +708,12 @@ def judge(ctx, out, session_lines, tag, stats):
     pending = None
     own = {}
     verdicts = {}
+    cur = None
     for ln in out:
+        if ln.startswith("req "):
+            cur = ln.split()[1]
+        elif ln.startswith("bt "):      # the harness' stack of a deallocate() of a block that is not outstanding (second free)
+            stats.setdefault("stacks", {}).setdefault(cur, []).append(ln)
         if ln.startswith("chk ") or ln.startswith("term "):
             pending = ln.split()[1]
         elif ln.startswith("v "):
@@ -679,16 +752,22 @@ def judge(ctx, out, session_lines, tag, stats):
     return verdicts, bad
 
 
-def report_bad(ctx, bad, session_lines, what):
+def report_bad(ctx, bad, session_lines, what, stacks=None):
     by_id = {}
     for ln in session_lines:
         a = ln.split(" ", 2)
         if len(a) >= 2:
             by_id[a[1]] = ln
-    for label, ln in bad[:5]:
+    # replay files for at most 6 verdicts per call, one of each request kind (first letter of the case id) first
+    seen_kinds = set()
+    first = [b for b in bad if not (b[0][:1] in seen_kinds or seen_kinds.add(b[0][:1]))]
+    for label, ln in (first + [b for b in bad if b not in first])[:6]:
         cid = label.split(".")[0]
         req = [session_lines[0]] + ([by_id[cid]] if cid in by_id else session_lines[1:-1]) + [session_lines[-1]]
-        ctx.violation("discipline", {"what": what, "verdict": ln, "case": label, "request": req})
+        payload = {"what": what, "verdict": ln, "case": label, "request": req}
+        if stacks and stacks.get(cid):
+            payload["stack_of_free_of_block_not_outstanding"] = stacks[cid][:4]
+        ctx.violation("discipline", payload)
 
 
 def run(ctx):
@@ -729,7 +808,7 @@ def run(ctx):
         for ln in o:
             if not ln.startswith(("a ", "f ")):
                 print(ln)
-        report_bad(ctx, bad, lines, "replayed case violates the discipline")
+        report_bad(ctx, bad, lines, "replayed case violates the discipline", stats.get("stacks"))
         # model comparison for arena / xmem requests of the replay
         heap = consts["heap"]
         cfg = (heap["kInitialHeapAllocSize"], heap["kMaxHeapAllocSize"], heap["kMaxSubAllocationSize"])
@@ -803,11 +882,20 @@ def run(ctx):
                 last = [ln for ln in o if ln.startswith("req ")]
                 cid = last[-1].split()[1] if last else None
                 req = [lines[0]] + [ln for ln in lines if cid and ln.split(" ", 2)[1] == cid] + [lines[-1]]
+                crash_stack = [ln for ln in o if ln.startswith("bt crash")]
+                creq = " ".join(ln for ln in lines if cid and ln.split(" ", 2)[1:2] == [cid])
+                if " xff=0 " in creq + " ":
+                    # setExitOnFirstFatalError(false) = fgXercesContinueAfterFatalError: XMLUni/SAX2XMLReader document the behaviour after a
+                    # fatal error as UNDETERMINED ("the parser may get stuck in an infinite loop or worse"); a crash there is counted, not
+                    # reported.  Traces that do complete under this setting are judged like all others.
+                    stats["crashes_after_continued_fatal_error"] = stats.get("crashes_after_continued_fatal_error", 0) + 1
+                    ncrash -= 1
                 ncrash += 1
-                if ncrash <= 12:
+                if ncrash <= 12 and " xff=0 " not in creq + " ":
                     ctx.violation("harness-crash", {"what": "the library crashed the harness (signal %s) while serving this request; a double "
                                                             "delete / use of released memory ends like this before the monitor sees it"
-                                                            % (-rc1 if rc1 < 0 else rc1), "stderr": err[-1500:], "case": cid, "request": req})
+                                                            % (-rc1 if rc1 < 0 else rc1), "stderr": err[-1500:], "case": cid, "request": req,
+                                                    "stack_at_crash": crash_stack[-1:] })
                 # the verdicts printed before the crash still count
                 o = [ln for ln in o if not (cid and ln.split()[1:2] == [cid])]
             verdicts, bad = judge(ctx, o, lines, "sweep", stats)
@@ -818,9 +906,10 @@ def run(ctx):
             bad = [(lab, ln) for lab, ln in bad if not (rc1 != 0 and lab.startswith("s") and "." not in lab)]
             allbad += len(bad)
             report_bad(ctx, bad, lines, "a block of an application-supplied manager was not returned exactly once "
-                                        "(verdict of the extracted monitor on the recorded trace)")
+                                        "(verdict of the extracted monitor on the recorded trace)", stats.get("stacks"))
     ctx.coverage["traces_validated_against_impl"] = stats.get("verdicts", 0)
     ctx.coverage["events_judged"] = stats.get("events", 0)
+    ctx.coverage["crashes_after_continued_fatal_error_not_reported"] = stats.get("crashes_after_continued_fatal_error", 0)
     ctx.coverage["input_distribution"] = {"cases": kinds, "endings": stats.get("outcomes", {})}
     ctx.note("sweep: %d requests, %d traces judged (%d events), %d not ok, %.1fs" % (
         len(sweep), stats.get("verdicts", 0), stats.get("events", 0), allbad, time.time() - t0))
@@ -918,6 +1007,9 @@ def run(ctx):
     # ---- 4. witnesses of the known findings (each in its own process) -------------------------------
     witnesses(ctx, xh, xm, dflt)
 
+    if not consts["init"].get("orphan_shape_ok", True) and not ctx.violations:
+        ctx.violation("translator", {"what": "GrammarResolver::orphanGrammar no longer has the modelled shape (a grammar handed out must leave "
+                                             "its owner) and the exploration found no failing input"}, no_input=True)
     if proof_broken and not ctx.violations:
         ctx.violation("obligation", {"what": "Coq obligation no longer checks and the exploration found no failing input",
                                      "failed": failed, "output": out[-3000:]}, no_input=True)
